@@ -24,7 +24,7 @@ def convert(trace):
     out = []
     i = 0
     while i < len(trace):
-        name, args, r = trace[i]
+        name, args, r = trace[i][:3]
         i += 1
         if r is None or r[0] == 'crash':
             out.append(('?' + name, None))
